@@ -141,8 +141,8 @@ void Scheduler::SleepPreemptive(std::uint64_t ns) {
   if (_time <= ns) {
     auto it = _sleep_list.find(ns);
     YACLIB_DEBUG(it == _sleep_list.end(), "sleep_list for time that is not passed yet isn't found");
-    if (it->second.Empty()) {
-      _sleep_list.erase(ns);
+    if (it != _sleep_list.end() && it->second.Empty()) {
+      _sleep_list.erase(it);
     }
   }
 }
